@@ -43,3 +43,167 @@ for _attr in ("pathsep", "verbose"):
         _S.__name__ = "DiffEntrySet_" + a
         return _S
     _mk(_attr)
+
+
+# ---------------------------------------------------------------------------------------------------
+# yaml-validate: exit 0 exactly when every document of every file loads
+# ---------------------------------------------------------------------------------------------------
+YV = "yamlpath.commands.yaml_validate."
+
+
+@contract("yamlpath.common.parsers.Parsers.get_yaml_multidoc_data", props=["C16"])
+class MultidocData:
+    assumed = True
+    notes = "the loader (ruamel + I/O): yields (document, loaded?) once per document of the stream; a document that fails to load is reported as (None, False)"
+    raises = []
+    opts = {"yields": "Tuple[Any, bool]"}
+
+
+@contract(YV + "process_file", props=["C16"])
+class ValidateProcessFile:
+    """The status of one file is 2 exactly when one of its documents did not load (per iteration: the status is non-zero
+    afterwards iff it was before or this document failed), else 0."""
+    params = {"yaml_file": "str"}
+    raises = []
+    loops = {"for _, doc_loaded in Parsers.get_yaml_multidoc_data(yaml, logcap, yaml_file)": {
+        "invariant": ["exit_state == 0 or exit_state == 2"],
+        "body_ensures": ["(exit_state != 0) == (pre_exit_state != 0 or not doc_loaded)"]}}
+    ensures = ["result == 0 or result == 2"]
+    opts = {"returns": "int", "event": "('process_file', yaml_file, result)", "heap_fields": {"LogErrorCap.lines": "List[str]"}}
+
+
+@contract(YV + "processcli", props=["C16"])
+class ValidateProcessCli:
+    assumed = True
+    notes = "argparse: returns the parsed arguments (or exits)"
+    raises = ["SystemExit"]
+    ensures = ["hasattr(result, 'nostdin') and isinstance(result.nostdin, bool)", "hasattr(result, 'yaml_files') and isinstance(result.yaml_files, list)"]
+    opts = {"returns": "Any"}
+
+
+@contract(YV + "validateargs", props=["C16"])
+class ValidateValidateArgs:
+    assumed = True
+    notes = "argument validation (exits with status 1 on a documented misuse)"
+    raises = ["SystemExit"]
+
+
+@contract(YV + "main", props=["C16"])
+class ValidateMain:
+    """The exit status handed to sys.exit is non-zero exactly when some file's status was non-zero (per iteration: non-zero
+    afterwards iff it was before or this file's status is); a failure is never overwritten by a later success."""
+    raises = ["SystemExit"]
+    loops = {"for yaml_file in args.yaml_files": {
+        "elem_assume": ["isinstance(yaml_file, str)"],
+        "body_ensures": ["(exit_state != 0) == (pre_exit_state != 0 or proc_state != 0)",
+                         "called('process_file') == 1 and call_event('process_file')[1] is yaml_file and same(call_event('process_file')[2], proc_state)"]}}
+    opts = {"exc_ensures": {"SystemExit": ["called('exit') <= 1", "implies(called('exit') == 1, same(call_event('exit')[1], exit_state))"]}}
+
+
+# ---------------------------------------------------------------------------------------------------
+# yaml-diff: which documents are compared, and the exit status
+# ---------------------------------------------------------------------------------------------------
+YD = "yamlpath.commands.yaml_diff."
+
+
+@contract("yamlpath.wrappers.consoleprinter.ConsolePrinter.critical", props=["C16"])
+class LogCritical:
+    assumed = True
+    notes = "ConsolePrinter.critical(message, exit_code): prints and ends the process with sys.exit(exit_code) -- it does not return"
+    raises = ["SystemExit"]
+    opts = {"noreturn": True}
+
+
+@contract(YD + "get_doc", props=["C16"])
+class DiffGetDoc:
+    """Selecting one document of a multi-document source: for ANY integer index the outcome is that document or a
+    reported error (SystemExit), never another exception; a returned document is the one at that index (a negative
+    index counting from the end is from-code: the option's help says zero-based, the code has always accepted -1)."""
+    params = {"log": "ConsolePrinter", "docs": "list", "index": "int"}
+    raises = ["SystemExit"]
+    ensures = ["-len(docs) <= index and index < len(docs) and result is docs[index]"]
+
+
+@contract(YD + "get_docs", props=["C16"])
+class DiffGetDocs:
+    """All documents of one source, or ([], False) as soon as one fails to load (or the file is missing)."""
+    params = {"log": "ConsolePrinter", "yaml_file": "str"}
+    raises = []
+    loops = {"for yaml_data, doc_loaded in Parsers.get_yaml_multidoc_data(yaml_editor, log, yaml_file)": {
+        "invariant": ["docs_loaded", "len(docs) == iters"],
+        "body_ensures": ["exited == (not doc_loaded)", "implies(exited, not docs_loaded and len(docs) == 0)"]}}
+    ensures = ["isinstance(result[1], bool)", "implies(not result[1], len(result[0]) == 0)"]
+    opts = {"returns": "Tuple[list, bool]"}
+
+
+@contract("ext:os.path.isfile", props=["C16"])
+class IsFile:
+    assumed = True
+    notes = "os.path.isfile"
+    raises = []
+    opts = {"returns": "bool"}
+
+
+@contract(YD + "processcli", props=["C16"])
+class DiffProcessCli:
+    assumed = True
+    notes = "argparse: returns the parsed arguments (or exits); exactly two YAML_FILEs are required by the parser (nargs=2)"
+    raises = ["SystemExit"]
+    ensures = ["hasattr(result, 'yaml_files') and isinstance(result.yaml_files, list) and len(result.yaml_files) == 2",
+               "isinstance(result.yaml_files[0], str) and isinstance(result.yaml_files[1], str)",
+               "hasattr(result, 'ignore_eyaml_values') and hasattr(result, 'eyaml') and hasattr(result, 'publickey') and hasattr(result, 'privatekey')",
+               # -L / -R are declared type=int
+               "hasattr(result, 'left_document_index') and (result.left_document_index is None or (isinstance(result.left_document_index, int) and not isinstance(result.left_document_index, bool)))",
+               "hasattr(result, 'right_document_index') and (result.right_document_index is None or (isinstance(result.right_document_index, int) and not isinstance(result.right_document_index, bool)))"]
+    opts = {"returns": "Any"}
+
+
+@contract(YD + "validateargs", props=["C16"])
+class DiffValidateArgs:
+    assumed = True
+    notes = "argument validation (exits with status 1 on a documented misuse)"
+    raises = ["SystemExit"]
+
+
+@contract("yamlpath.differ.differ.Differ.__init__", props=["C16"])
+class DifferInit:
+    assumed = True
+    notes = "Differ construction (property C06)"
+    raises = []
+
+
+@contract("yamlpath.differ.differconfig.DifferConfig.__init__", props=["C16"])
+class DifferConfigInit:
+    assumed = True
+    notes = "reads the optional INI file named by --config (validated before)"
+    raises = []
+
+
+@contract("yamlpath.differ.differ.Differ.compare_to", props=["C16"])
+class CompareTo:
+    assumed = True
+    notes = "the comparison (property C06)"
+    raises = ["EYAMLCommandException"]
+    opts = {"event": "('compare', self, document)"}
+
+
+@contract(YD + "print_report", props=["C16"])
+class PrintReportCall:
+    assumed = True
+    notes = "call-site face of print_report (verified above): a bool, and the fact of the call"
+    raises = []
+    opts = {"callsite": True, "returns": "bool", "event": "('report', result)"}
+
+
+@contract(YD + "main", props=["C16"])
+class DiffMain:
+    """yaml-diff: a source that does not load ends with status 1 before anything is compared; otherwise exactly one
+    comparison (left document against right document) and the status is 1 exactly when print_report says there are
+    differences."""
+    raises = ["SystemExit"]
+    opts = {"exc_ensures": {"SystemExit": [
+        "called('compare') <= 1 and called('report') <= 1 and called('exit') <= 1",
+        # a status other than 1 is only ever the report's verdict
+        "implies(called('exit') == 1 and called('report') == 0, same(call_event('exit')[1], 1) and called('compare') == 0)",
+        "implies(called('report') == 1, called('compare') == 1 and called('exit') == 1 and same(call_event('exit')[1], 1 if call_event('report')[1] else 0))",
+    ]}}
